@@ -186,6 +186,16 @@ def corpus(tier):
                                      features={'class': 'cl' if body else 'cl_zero'}))
                     out.append(build(kind, start, hsets[1], 'chunked', body, (len(body),) if body else (), trailing,
                                      framing_case=fcase, features={'class': 'chunked'}))
+    # obsolete line folding (RFC 7230 3.2.4): a field value continued on a line that starts with SP / HTAB.  What
+    # the parser makes of it is not judged here (feature obs_fold); that it makes the SAME of it however the
+    # bytes are cut, is
+    fold = (b'X-Long', b'first part second part', b'X-Long: first part\r\n second part')
+    fold2 = (b'X-Tabbed', b'a b', b'X-Tabbed: a\r\n\tb')
+    for kind in ('request', 'response'):
+        start = starts(kind)[0]
+        for hs in ([HEADER_ALPHABET[0], fold], [fold, HEADER_ALPHABET[1]], [HEADER_ALPHABET[0], fold2, fold]):
+            out.append(build(kind, start, hs, 'cl', b'abc', trailing=b'G', features={'class': 'cl', 'obs_fold': True}))
+            out.append(build(kind, start, hs, 'chunked', b'abc', (1, 2), b'', features={'class': 'chunked', 'obs_fold': True}))
     # transfer-coding names are case-insensitive too
     for kind in ('request', 'response'):
         start = starts(kind)[0]
